@@ -11,9 +11,6 @@ open Ruschm
 
 /-! ## vocabulary: non-panic errors -/
 
-/-- an error that is not a panic -/
-def SErr.NP (e : SErr) : Prop := ∀ s, e.1 ≠ .panic s
-
 theorem noPanic_iff {α} {r : Except SErr α} : NoPanic r ↔ ∀ e, r = .error e → SErr.NP e := by
   constructor
   · intro h e he s hs
